@@ -36,17 +36,19 @@ def l1_norm(ham, norb):
 
 def gen_cases(rng, tier):
     cases = []
-    n = 70 if tier == 'quick' else 500
+    n = 80 if tier == 'quick' else 560
     recipes = ['diag', 'diag2', 'quad_restr', 'quad_gso', 'quad_sso', 'dc2', 'dc4', 'individual', 'individual_num',
-               'restricted2', 'sso2', 'gso2_sb', 'sparse_multi', 'restricted3']
+               'restricted2', 'sso2', 'gso2_sb', 'sparse_multi', 'restricted3', 'individual_flip', 'individual_flip']
     for k in range(n):
         rec = recipes[k % len(recipes)]
         norb = rng.randint(1, 3)
         mode = 'ns'
         if rec in ('gso2_sb',) or (rec in ('quad_gso', 'diag2', 'sparse_multi') and rng.random() < 0.6):
             mode = 'sb'
-        if rec == 'quad_gso':
+        if rec in ('quad_gso', 'individual_flip'):
             mode = 'sb'
+        if rec == 'individual_flip':
+            norb = rng.randint(2, 3)
         if mode == 'ns':
             na, nb = rng.randint(0, norb), rng.randint(0, norb)
             nn, sz = na + nb, na - nb
@@ -86,6 +88,24 @@ def gen_cases(rng, tier):
                 re, im = c01._rand_c(rng)
                 ents = [[ops, re, im], [c01._adjoint_ops(ops), re, -im]]
             ham = {'cls': 'sparse', 'rank': 0, 'entries': ents, 'e0': [0, 0], 'real': False}
+        elif rec == 'individual_flip':
+            # one string + h.c. that changes S_z (single, double, triple spin flips, mixed), on a spin-broken wavefunction:
+            # the closed-form route of FqeDataSet.evolve_individual_nbody
+            # net spin transfer nda in {+-1, +-2, +-3}: creators of one spin, annihilators of the other,
+            # optionally a spectator operator pair; or a mixed pattern
+            m = rng.randint(1, min(3, norb))
+            up = [2 * i for i in rng.sample(range(norb), m)]
+            dn = [2 * i + 1 for i in rng.sample(range(norb), m)]
+            cr, an = (up, dn) if rng.random() < 0.5 else (dn, up)
+            if rng.random() < 0.3 and m < 3:
+                q = rng.randrange(2 * norb)
+                if q not in cr and q not in an:
+                    cr, an = cr + [q], an + [q]
+            nn = rng.randint(2, 2 * norb - 1)
+            ops = [[q, 1] for q in cr] + [[q, 0] for q in an]
+            re, im = c01._rand_c(rng)
+            ents = [[ops, re, im], [c01._adjoint_ops(ops), re, -im]]
+            ham = {'cls': 'sparse', 'rank': 0, 'entries': ents, 'e0': [0, 0], 'real': False}
         elif rec == 'restricted2':
             ham = c01.gen_ham(rng, 'restricted', 2, norb, 'sparse', real, True)
         elif rec == 'restricted3':
@@ -108,7 +128,7 @@ def gen_cases(rng, tier):
             ham = {'cls': 'sparse', 'rank': 0, 'entries': terms, 'e0': [0, 0], 'real': False}
         ham['e0'] = rng.choice([[0, 0], [0, 0], [1, 0], [-2, 0], [3, 0]])
         t = rng.choice([0.0, 0.015625, -0.015625, 0.05, -0.3, 1.0, 0.7])
-        if rec in ('diag', 'diag2', 'dc2', 'dc4', 'individual', 'individual_num', 'quad_restr', 'quad_gso', 'quad_sso') \
+        if rec in ('diag', 'diag2', 'dc2', 'dc4', 'individual', 'individual_num', 'individual_flip', 'quad_restr', 'quad_gso', 'quad_sso') \
                 and rng.random() < 0.3:
             t = rng.choice([7.5, -12.25, 40.0])
         keys = fqeio.sector_keys(norb, mode, nn, sz)
